@@ -336,6 +336,13 @@ pub fn c17(tier: &str, seed: u64) {
         }
       };
       check("wrong epoch", &shares[..tu], &other, None);
+      // RELATED wrong epochs: the clients' epoch extended, or cut (at a machine-size length)
+      for _ in 0..2 {
+        if let Some(rel) = related_epoch(&mut g, &epoch) {
+          stat("oracle.C17.related_wrong_epoch");
+          check("wrong epoch (extension / truncation of the clients' epoch)", &shares[..tu], &rel, None);
+        }
+      }
       // mixed measurements, none reaches its threshold
       if tu >= 2 {
         let m2 = { let mut v = m.clone(); v.push(7); v };
@@ -624,12 +631,25 @@ pub fn c18(tier: &str, seed: u64) {
     } else {
       g.range(0, if q { 10 } else { 30 }) as usize
     };
+    // ONE POPULAR measurement: a group whose size sits at a counter width (8 / 16 bits), at it plus
+    // less than the threshold, and at multiples of it
+    let popular = !huge && !small && case_i % 9 == 4;
+    let ngroups = if popular { ngroups.max(2) } else { ngroups };
+    let popular_size = if popular {
+      stat("oracle.C18.popular_measurement_counter_width");
+      let tt = t as usize;
+      if !q && case_i % 360 == 4 { *g.pick(&[65535usize, 65536, 65537]) } else { *g.pick(&[255usize, 256, 257, 258, 255 + tt, 256 + tt, 511, 512, 513, 768]) }
+    } else {
+      0
+    };
     // the clients
     let mut clients: Vec<(Vec<u8>, Option<Vec<u8>>)> = Vec::new();
     for gi in 0..ngroups {
       let mut m = { let n = g.below(40) as usize; g.blob(n) };
       m.extend((gi as u32).to_le_bytes());
-      let size = if huge {
+      let size = if popular && gi == 1 {
+        popular_size
+      } else if huge {
         // a few groups at/above the threshold whose reports end up far apart after shuffling
         if gi % 1000 == 7 { t as usize + (gi / 1000) % 3 } else { g.range(1, 2) as usize }
       } else if small {
